@@ -7,6 +7,12 @@ BUILT = {
  "C01": dict(cat="exploration", tech="deterministic simulation: seeded workload + RNG fault injection (FaultRng), byte-budget bounded liveness, real Ristretto and free-module group",
    text="Seeded simulation of prover nodes handed healthy and failing external RNG streams (all-zero, all-ones, constant, short-period, counter, stuck-after-n, replayed), across the configuration lattice (bits 1..64, aggregation 1..32, capacity > m, extension degree 1..6, boundary values, promises, seeds), each proof verified in all three modes alone and inside a batch. Completeness is an identity, so sampling diverse configurations under every RNG failure mode with a byte budget for prover termination is the level that fits: it decides the RNG-quantified part of the statement, which unit tests with one healthy RNG cannot.",
    note="Trusted: FreePoint is a faithful free-module stand-in for the group (every class of run also executes on real Ristretto); sampling, not proof; zero challenge (2^-252) ignored.", ref="5/C01"),
+ "C03": dict(cat="exploration", tech="deterministic simulation: seeded scheduler of a verifier node decides batch membership, size and order over a duplicated/reordered message pool; refinement against the sequential reference model (one-at-a-time verification)",
+   text="A simulated verifier node drains a pool of valid and defective messages; the seeded scheduler decides which members form a batch, how many (1..1100, concentrated on 255/256/257/511/512/513), with what repetition, in what order and in which mode. Oracle: batch Ok iff every member's singleton verdict is Ok, exactly k results, result i equal to member i's singleton mask; malformed shapes (empty, unequal sequence lengths, a member that disagrees on bits / extension degree / H / G_k but is valid on its own) are refused. Sizes beyond the chunk limit and invalid members placed beyond it are reached in every quick run (probe counters enforce it).",
+   note="Reference verdict of a member is the library's own singleton verification (soundness of that is C02); FreePoint faithful (1 run in 5 on Ristretto); weights do not cancel by accident (2^-252).", ref="5/C03"),
+ "C20": dict(cat="fault_enumeration", tech="deterministic simulation: allocator seam scanning every freed block, crash-point enumeration (RNG panic at each of its call sites, error return), simulator-owned stale-stack contents, two build profiles",
+   text="Every heap block freed during a scripted life cycle (openings -> witness -> statement with seed -> prove -> verify with recovery -> drops in a seeded order) is scanned for the byte images of blinding factors, masks, the recovery seed and (64-bit) values; the life cycle is crashed at every call site of the external RNG (panic = OsRng failing with secrets live) and on the prover's error return after the witness was absorbed; a statement is dropped in place over a stack the simulator has painted (neutral / stale copies of the seed) and its bytes inspected. Enumeration is complete over crash points per configuration and runs with the library at opt-level 0 and at release.",
+   note="Secrets recognised by exact byte images only; stack/register residues out of scope; Ristretto only (free-module points expose scalars by construction); the scanning wrapper itself is trusted (it wipes every freed block with volatile writes so stale harness bytes cannot resurface).", ref="5/C20"),
 }
 
 NA = {
@@ -19,7 +25,7 @@ NA = {
  "C19": "regression against recorded vectors and differential testing against an independent implementation of pure functions: no schedule, fault or history in it",
 }
 
-PENDING = {'C02': 'check planned (DESIGN.md section 5) but not built yet; will be claimed when its check exists', 'C03': 'check planned (DESIGN.md section 5) but not built yet; will be claimed when its check exists', 'C04': 'check planned (DESIGN.md section 5) but not built yet; will be claimed when its check exists', 'C05': 'check planned (DESIGN.md section 5) but not built yet; will be claimed when its check exists', 'C08': 'check planned (DESIGN.md section 5) but not built yet; will be claimed when its check exists', 'C11': 'check planned (DESIGN.md section 5) but not built yet; will be claimed when its check exists', 'C12': 'check planned (DESIGN.md section 5) but not built yet; will be claimed when its check exists', 'C13': 'check planned (DESIGN.md section 5) but not built yet; will be claimed when its check exists', 'C14': 'check planned (DESIGN.md section 5) but not built yet; will be claimed when its check exists', 'C16': 'check planned (DESIGN.md section 5) but not built yet; will be claimed when its check exists', 'C18': 'check planned (DESIGN.md section 5) but not built yet; will be claimed when its check exists', 'C20': 'check planned (DESIGN.md section 5) but not built yet; will be claimed when its check exists'}  # id -> reason, for properties planned but whose check is not built yet
+PENDING = {'C02': 'check planned (DESIGN.md section 5) but not built yet; will be claimed when its check exists', 'C04': 'check planned (DESIGN.md section 5) but not built yet; will be claimed when its check exists', 'C05': 'check planned (DESIGN.md section 5) but not built yet; will be claimed when its check exists', 'C08': 'check planned (DESIGN.md section 5) but not built yet; will be claimed when its check exists', 'C11': 'check planned (DESIGN.md section 5) but not built yet; will be claimed when its check exists', 'C12': 'check planned (DESIGN.md section 5) but not built yet; will be claimed when its check exists', 'C13': 'check planned (DESIGN.md section 5) but not built yet; will be claimed when its check exists', 'C14': 'check planned (DESIGN.md section 5) but not built yet; will be claimed when its check exists', 'C16': 'check planned (DESIGN.md section 5) but not built yet; will be claimed when its check exists', 'C18': 'check planned (DESIGN.md section 5) but not built yet; will be claimed when its check exists'}  # id -> reason, for properties planned but whose check is not built yet
 
 def main():
     checks = []
